@@ -93,6 +93,11 @@ def mutate_tree(x, rng, seen=None):
         kids = list(x.kids)
         x.kids.append('mut')
         x.meta = ('mutated-meta',)
+        ents = getattr(x, 'ents', None)
+        if ents is not None:  # the entries list the flatten function handed to the engine
+            ents.reverse()
+            ents.append('mut-entry')
+            ents[0] = 'mut-entry0'
     elif isinstance(x, U.UDict):
         kids = list(x.data.values())
         x.data['__mut__'] = 1
@@ -103,12 +108,15 @@ def mutate_tree(x, rng, seen=None):
 def make_local_type(idx, ns):
     """A custom type private to this case, so unregistering it disturbs nothing else."""
     class Loc(U.CBase):
-        __slots__ = ()
+        __slots__ = ('ents',)
 
     Loc.__name__ = Loc.__qualname__ = f'Loc{idx}'
 
     def fl(o):
-        return tuple(o.kids), ('Loc', o.meta), tuple(f'e{i}' for i in range(len(o.kids)))
+        # hands out the object's OWN children and entries lists (as careless user code does): the treespec must not alias them
+        if len(getattr(o, 'ents', ())) != len(o.kids):
+            o.ents = [f'e{i}' for i in range(len(o.kids))]
+        return o.kids, ('Loc', o.meta), o.ents
 
     def un(m, c):
         return Loc(c, m[1])
@@ -164,6 +172,16 @@ def check_case(sink, seed, idx, order):  # noqa: C901
                 ps.clear()
                 ac = spec.accessors()
                 ac.clear()
+                # lists handed out by derived treespecs and by the function forms
+                one = spec.one_level()
+                for sp_ in ([one] if one is not None else []) + ([spec.child(0), spec.child(-1)] if spec.num_children else []):
+                    for lst_ in (sp_.entries(), sp_.children(), sp_.paths(), sp_.accessors()):
+                        lst_.append('junk')
+                        lst_.reverse()
+                for lst_ in (optree.treespec_entries(spec), optree.treespec_children(spec), optree.treespec_paths(spec), optree.treespec_accessors(spec)):
+                    lst_.append('junk')
+                    del lst_[:1]
+                sp_ = lst_ = one = None
             elif act == 'unregister' and registered:
                 optree.unregister_pytree_node(Loc, namespace=reg_ns or GLOBAL)
                 registered = False
